@@ -74,7 +74,8 @@ func runC05ThrottleFloor(c *Ctx) {
 				case *ssa.Field:
 					st, idx = derefStruct(y.X.Type()), y.Field
 				}
-				if st != nil && st.Field(idx).Name() == "delay" {
+				_ = idx
+				if st != nil && isThrottleDelayAccessA3(x) { // by type, not by the field's name
 					return true
 				}
 			}
@@ -117,7 +118,8 @@ func runC05ThrottleFloor(c *Ctx) {
 						case *ssa.Field:
 							st, idx = derefStruct(y.X.Type()), y.Field
 						}
-						if st != nil && st.Field(idx).Name() == "delay" {
+						_ = idx
+						if st != nil && isThrottleDelayAccessA3(x) { // by type, not by the field's name
 							n++
 							c.OK("throttle delay compared with the back-off in "+fnName(fn), p.Pos(bo.Pos()), "compare-and-assign form")
 							return
